@@ -12,6 +12,9 @@
                         (x - p) | B - r C          (B/A - r/(x-p) has no pole at p)
    residue_sub_double : for A = (x - p)^2 C, r2 = (B/C)(p), r1 = (B/C)'(p)/1!:
                         (x - p)^2 | B - r2 C - r1 (x - p) C
+   residue_k_general  : for A = (x - p)^n C, EVERY n: B = C * Sigma_{k<n} c_k (x-p)^k + (x-p)^n W with
+                        c = jet_residues (division of the Taylor-shifted polynomials in ascending
+                        powers), and residue_k_general_value: B/A = Sigma c_k/(x-p)^(n-k) + W/C
    with the value-level corollaries.  taylor2_spec is the second-order Taylor
    expansion of a polynomial with an explicit remainder polynomial.  Axiom-free. *)
 Require Import LT.FieldSec LT.PolyQ LT.ExpPoly.
@@ -33,15 +36,96 @@ Definition cover_denom (sel : bool -> nat -> nat -> bool) (i : nat) (ei : rentry
   fold_right (fun je acc => match je, ei with (jdx, (kj, pj, oj, _)), (ki, _, oi, _) =>
       if Nat.eqb jdx i then acc else if sel (Nat.eqb ki kj) oi oj then pmul (plin pj) acc else acc end)
     [1] (combine (seq 0 (length es)) es).
-Fixpoint residues_go (sel : bool -> nat -> nat -> bool) (Bn : poly) (all : list rentry) (i : nat) (es : list rentry)
+Fixpoint residues_go_d (sel : bool -> nat -> nat -> bool) (dv : nat -> nat -> K) (Bn : poly) (all : list rentry) (i : nat) (es : list rentry)
     (expr : poly * poly) : list K :=
   match es with [] => []
   | e :: es' => match e with (k, p, o, M) =>
       let expr' := if Nat.eqb M o then (Bn, cover_denom sel i e all) else rdiff expr in
-      (if Nat.eqb M o then rat_eval expr' p else rat_eval expr' p / fnat (natfact (M - o))) :: residues_go sel Bn all (S i) es' expr' end
+      (if Nat.eqb M o then rat_eval expr' p else rat_eval expr' p / dv M o) :: residues_go_d sel dv Bn all (S i) es' expr' end
   end.
-Definition residues_sub (sel : bool -> nat -> nat -> bool) (poles : list (K * nat)) (Bn : poly) : list K :=
-  let es := pole_entries O poles in residues_go sel Bn es O es ([], [1]).
+(* [dv M O] is the translated divisor of the lower-order residues, sym.factorial(M[i] - O[i]) *)
+Definition residues_sub_d (sel : bool -> nat -> nat -> bool) (dv : nat -> nat -> K) (poles : list (K * nat)) (Bn : poly) : list K :=
+  let es := pole_entries O poles in residues_go_d sel dv Bn es O es ([], [1]).
+Definition fact_div (M o : nat) : K := fnat (natfact (M - o)).
+Definition residues_go sel := residues_go_d sel fact_div.
+Definition residues_sub sel := residues_sub_d sel fact_div.
+
+
+(* ---- residues of every order: Taylor jets -------------------------------------------------
+   For A = (x - p)^n C with C(p) <> 0 the n residues at p are the first n coefficients
+   c_0 .. c_{n-1} of the power series of B/C in (x - p)  (c_k = (B/C)^(k)(p)/k!), obtained
+   by division in ascending powers of the shifted polynomials; c_k belongs to 1/(x-p)^(n-k). *)
+(* P(y + p) as a polynomial in y *)
+Fixpoint ptaylor (p : K) (P : poly) : poly :=
+  match P with [] => [] | a :: q => padd [a] (pmul [p; 1] (ptaylor p q)) end.
+Lemma ptaylor_spec (p : K) (P : poly) (y : K) : peval (ptaylor p P) y = peval P (y + p).
+Proof. induction P as [|a q IH]; cbn [ptaylor peval]; [reflexivity|].
+  rewrite peval_padd, peval_pmul, IH. cbn [peval]. ring. Qed.
+
+(* division in ascending powers: n steps of  c = R(0)/d(0), R := (R - c d)/y *)
+Fixpoint asc_div (n : nat) (R d : poly) : list K * poly :=
+  match n with
+  | O => ([], R)
+  | S m => let c := hd 0 R / hd 0 d in
+           let (cs, Rn) := asc_div m (tl (psub R (pscale c d))) d in (c :: cs, Rn)
+  end.
+Lemma peval_hd_tl (l : poly) (y : K) : peval l y = hd 0 l + y * peval (tl l) y.
+Proof. destruct l; cbn; ring. Qed.
+Lemma hd_psub (a b : poly) : hd 0 (psub a b) = hd 0 a - hd 0 b.
+Proof. unfold psub, popp. destruct a, b; cbn; ring. Qed.
+Lemma hd_pscale c (a : poly) : hd 0 (pscale c a) = c * hd 0 a.
+Proof. destruct a; cbn; ring. Qed.
+Theorem asc_div_spec n : forall (R d : poly), hd 0 d <> 0 ->
+  forall y, peval R y = peval d y * peval (fst (asc_div n R d)) y + fpow y n * peval (snd (asc_div n R d)) y.
+Proof. induction n as [|n IH]; intros R d Hd y; cbn [asc_div fst snd fpow peval]; [ring|].
+  set (c := hd 0 R / hd 0 d).
+  specialize (IH (tl (psub R (pscale c d))) d Hd y).
+  destruct (asc_div n (tl (psub R (pscale c d))) d) as [cs Rn]. cbn [fst snd peval] in *.
+  assert (E : peval (psub R (pscale c d)) y = y * peval (tl (psub R (pscale c d))) y).
+  { rewrite (peval_hd_tl (psub R (pscale c d)) y), hd_psub, hd_pscale. unfold c. field_simplify_eq; [ring | exact Hd]. }
+  rewrite peval_psub, peval_pscale in E.
+  transitivity (c * peval d y + (peval R y - c * peval d y)); [ring|]. rewrite E, IH. ring. Qed.
+
+Lemma peval_at0 (l : poly) : peval l 0 = hd 0 l.
+Proof. destruct l; cbn; ring. Qed.
+Definition jet_residues (p : K) (n : nat) (Bp C : poly) : list K := fst (asc_div n (ptaylor p Bp) (ptaylor p C)).
+Definition jet_rest (p : K) (n : nat) (Bp C : poly) : poly := snd (asc_div n (ptaylor p Bp) (ptaylor p C)).
+(* B = C * (c_0 + c_1 (x-p) + .. + c_{n-1} (x-p)^(n-1)) + (x-p)^n W : every n *)
+Theorem residue_k_general (Bp C : poly) (p : K) (n : nat) : peval C p <> 0 ->
+  forall x, peval Bp x = peval C x * peval (jet_residues p n Bp C) (x - p) + fpow (x - p) n * peval (jet_rest p n Bp C) (x - p).
+Proof. intros HC x. unfold jet_residues, jet_rest.
+  assert (Hd : hd 0 (ptaylor p C) <> 0).
+  { rewrite <- peval_at0, ptaylor_spec. replace (0 + p) with p by ring. exact HC. }
+  pose proof (asc_div_spec n (ptaylor p Bp) (ptaylor p C) Hd (x - p)) as E.
+  rewrite !ptaylor_spec in E. replace (x - p + p) with x in E by ring. exact E. Qed.
+(* the coefficient list as partial-fraction terms c_k/(x-p)^(m-k) *)
+Fixpoint jet_pf (p : K) (m : nat) (cs : list K) : list (pfterm K) :=
+  match cs with [] => [] | c :: cs' => (c, p, m) :: jet_pf p (pred m) cs' end.
+Lemma jet_pf_val (p : K) : forall (cs : list K) (m : nat) (x : K), x - p <> 0 -> (length cs <= m)%nat ->
+  peval cs (x - p) / fpow (x - p) m = pf_val (jet_pf p m cs) x.
+Proof. induction cs as [|c cs IH]; intros m x Hx Hl; cbn [jet_pf pf_val peval].
+  - pose proof (fpow_nz K _ m Hx). field. assumption.
+  - cbn [length] in Hl. destruct m as [|m]; [lia|]. cbn [Nat.pred]. rewrite <- (IH m x Hx) by lia.
+    pose proof (fpow_nz K _ m Hx). cbn [fpow]. field. split; assumption. Qed.
+Lemma asc_div_length n : forall R d : poly, length (fst (asc_div n R d)) = n.
+Proof. induction n as [|n IH]; intros R d; cbn [asc_div fst length]; [reflexivity|].
+  specialize (IH (tl (psub R (pscale (hd 0 R / hd 0 d) d))) d).
+  destruct (asc_div n (tl (psub R (pscale (hd 0 R / hd 0 d) d))) d) as [cs Rn]. cbn [fst length] in *. rewrite IH. reflexivity. Qed.
+(* value form: B/((x-p)^n C) = Sigma_k c_k/(x-p)^(n-k) + W/C, for EVERY multiplicity n *)
+Theorem residue_k_general_value (Bp C : poly) (p : K) (n : nat) : peval C p <> 0 ->
+  forall x, x - p <> 0 -> peval C x <> 0 ->
+    peval Bp x / (fpow (x - p) n * peval C x) =
+      pf_val (jet_pf p n (jet_residues p n Bp C)) x + peval (jet_rest p n Bp C) (x - p) / peval C x.
+Proof. intros HC x Hx HCx. rewrite <- (jet_pf_val p _ n x Hx) by (unfold jet_residues; rewrite asc_div_length; apply Nat.le_refl).
+  rewrite (residue_k_general Bp C p n HC x). pose proof (fpow_nz K _ n Hx). field. split; assumption. Qed.
+(* the residues of all poles by jets: cofactor C_k = Bn-independent product of the other factors *)
+Fixpoint others_prod (k : nat) (i : nat) (poles : list (K * nat)) : poly :=
+  match poles with [] => [1]
+  | (q, m) :: r => if Nat.eqb i k then others_prod k (S i) r else pmul (plinpow q m) (others_prod k (S i) r) end.
+Fixpoint residues_jet_go (all : list (K * nat)) (k : nat) (poles : list (K * nat)) (Bn : poly) : list K :=
+  match poles with [] => []
+  | (p, n) :: r => jet_residues p n Bn (others_prod k O all) ++ residues_jet_go all (S k) r Bn end.
+Definition residues_jet (poles : list (K * nat)) (Bn : poly) : list K := residues_jet_go poles O poles Bn.
 
 (* ---- second-order Taylor expansion with explicit remainder ------------------------- *)
 Fixpoint taylor2 (p : K) (N : poly) : poly :=
@@ -94,4 +178,6 @@ Proof. intros HC. destruct (residue_sub_double Bp C p HC) as [W HW]. exists W. i
   rewrite E2. cbn [fpow]. field. split; assumption. Qed.
 End Res.
 
+Arguments residues_go_d {K}. Arguments residues_sub_d {K}. Arguments fact_div {K}. Arguments ptaylor {K}. Arguments asc_div {K}.
+Arguments jet_residues {K}. Arguments jet_rest {K}. Arguments jet_pf {K}. Arguments others_prod {K}. Arguments residues_jet {K}.
 Arguments pole_entries {K}. Arguments rdiff {K}. Arguments cover_denom {K}. Arguments residues_go {K}. Arguments residues_sub {K}. Arguments taylor2 {K}.
